@@ -12,6 +12,12 @@ CLAIMED = {
                      "symbolic path tree of escape_text + Tokenizer; bounded, not a proof for longer strings.",
                 note="Trusted: CrossHair's str/regex models, z3, the driver vf/chx.py; pure-Python tokenizer only; length bound 3 (quick) / 4 (thorough).",
                 technique=_E1),
+    "C18": dict(engine="chx", category="model_checking",
+                text="All path strings up to the stated length over a separator/dot/name alphabet, through 10 entry points of RawFileSystem and a "
+                     "prefixed FileSystemChain, are decided by exhausting the symbolic path tree; the oracle is the set of paths the code actually "
+                     "touched on a model file system, resolved component-wise. Bounded (length 5 quick / 7 thorough).",
+                note="Trusted: POSIX path model vf/stubs/pathmodel.py (validated against os.path each run), CrossHair, z3. No symlinks, no Windows semantics.",
+                technique=_E1),
 }
 _TODO = "check not built yet in this round (planned: see DESIGN.md section 3)"
 NOT_APPLICABLE = {f"C{i:02d}": _TODO for i in range(1, 21) if f"C{i:02d}" not in CLAIMED}
